@@ -75,13 +75,14 @@ def fresh_world():
 
 
 def recv_stream(e, forms, npub, max_polls, max_none, check, drops=0, restart=False, sym_state=False, balance=False,
-                consumer_restart=False, bal_flag=None, disjoint_ids=False, low_latency=None, timeout_ms=None, again=False):
+                consumer_restart=False, bal_flag=None, disjoint_ids=False, low_latency=None, timeout_ms=None, again=False, any_order=False):
     """Build a receiver over len(forms) sources, queue a bounded symbolic stream on every connection and call the real
     ZMQReceiver.recv until the schedule is exhausted; `check(ctx, data, st)` is the oracle for every returned set.
 
     forms[i] = list of (addr_suffix, topics_suffix, [topic list per publish index (cycled)]) alternatives (symbolic choice)."""
     fresh_world()
     specs = []; plans = []
+    if any_order and len(forms) == 2 and e.choice('source_order', 2): forms = [forms[1], forms[0]]      # the order in which the sources are listed
     for i, fl in enumerate(forms):
         k = e.choice(f'form{i}', len(fl)) if len(fl) > 1 else 0
         asuf, tsuf, tl = fl[k]
@@ -203,3 +204,18 @@ def data_publishes(pub):
 
 def in_order_oracle(ready, timeout):
     return ready[0] if ready else None
+
+
+def check_request_marks(ctx):
+    """every flow-control message says what kind of consumer sent it (the publisher's wait set relies on it):
+    requests of '?' sources carry eph=1, requests of synchronized sources carry no eph mark"""
+    e = ctx.e
+    for snd in ctx.r.senders.values():
+        if snd.push is None: continue
+        for m in snd.push.sent:
+            d = m[0].d
+            if d.get('mid', 0) <= Z.MSG_ID_SPECIAL: continue
+            if snd.ephemeral and d.get('eph') != snd.ephemeral:
+                e.fail('eph-mark-missing', f"request {d} of a '{'?' * snd.ephemeral}' source does not carry the ephemeral mark: the publisher would wait for it like a synchronized consumer", {'kind': 'eph-mark-missing'})
+            if not snd.ephemeral and d.get('eph'):
+                e.fail('eph-mark-spurious', f'request {d} of a synchronized source ({snd.addr}) is marked ephemeral: the publisher would stop waiting for this consumer', {'kind': 'eph-mark-spurious'})
